@@ -16,6 +16,7 @@ import (
 	"testing"
 	"time"
 
+	"github.com/jhalter/mobius/hotline"
 	"pgregory.net/rapid"
 
 	"verif/harness/evid"
@@ -137,5 +138,47 @@ func TestC01Tracker(t *testing.T) {
 		if ev.WantSample() {
 			ev.Sample(map[string]any{"kind": "tracker registration sent by the server", "trackers": ntr, "name": name, "description": desc, "datagram": hexs(want)})
 		}
+	})
+}
+
+// TestC01Register: the send path of a tracker registration (the function the registration loop calls per tracker) with
+// names, descriptions and passwords up to their one-byte length prefixes: the tracker receives the record as one
+// datagram in the wire layout, whatever its size.
+func TestC01Register(t *testing.T) {
+	ev := evid.New("C01", "TestC01Register")
+	defer ev.Flush()
+	rapid.Check(t, func(rt *rapid.T) {
+		ln := func(label string) int {
+			return rapid.SampledFrom([]int{0, 1, 50, 127, 128, 200, 237, 238, 239, 240, 254, 255}).Draw(rt, label)
+		}
+		name := genBytes(rt, "name", ln("nameLen"))
+		desc := genBytes(rt, "desc", ln("descLen"))
+		pass := genBytes(rt, "pass", ln("passLen"))
+		k := genBytes(rt, "k", 6)
+		users := rapid.IntRange(0, 65535).Draw(rt, "users")
+		pc, err := net.ListenPacket("udp", "127.0.0.1:0")
+		if err != nil {
+			rt.Fatalf("VERIF-INCONCLUSIVE udp socket: %v", err)
+		}
+		defer pc.Close()
+		tr := &hotline.TrackerRegistration{Port: arr2(k[0:2]), UserCount: users, PassID: arr4(k[2:6]), Name: string(name), Description: string(desc), Password: string(pass)}
+		want := hlref.EncodeTrackerRegistration(hlref.U16(k[0:2]), users, arr4(k[2:6]), name, desc, pass)
+		if err := hotline.VerifRegister(pc.LocalAddr().String(), tr); err != nil {
+			rt.Fatalf("register: %v", err)
+		}
+		buf := make([]byte, 70000)
+		pc.SetReadDeadline(time.Now().Add(20 * time.Second))
+		n, _, err := pc.ReadFrom(buf)
+		if err != nil {
+			rt.Fatalf("the tracker received nothing within 20 s: %v", err)
+		}
+		if !bytes.Equal(buf[:n], want) {
+			rt.Fatalf("a registration of %d bytes (name %d, description %d, password %d) arrived as a datagram of %d bytes that is not the record (first difference at %d)", len(want), len(name), len(desc), len(pass), n, firstDiff(buf[:n], want))
+		}
+		pc.SetReadDeadline(time.Now().Add(30 * time.Millisecond))
+		if m, _, err := pc.ReadFrom(buf); err == nil {
+			rt.Fatalf("a registration of %d bytes arrived in more than one datagram (a second one of %d bytes followed)", len(want), m)
+		}
+		ev.Case(evid.Hash("register", want), len(want) > 508, fmt.Sprintf("record>508:%v", len(want) > 508))
 	})
 }
